@@ -17,7 +17,7 @@ def xev_coq(e):
     if k == "expand":
         return "XExpand"
     if k == "tick":
-        return "XTick %s %s" % (coq_z(e.get("pt", 0)), coq_z(e.get("now", 0)))
+        return "XTick %s %s %s" % (coq_z(e.get("pt", 0)), coq_z(e.get("now", 0)), coq_z(e.get("now2") or e.get("now", 0)))
     if k == "tickfail":
         return "XTickAborted %s %s" % (coq_z(e.get("pt", 0)), coq_z(e.get("now", 0)))
     if k == "restart":
